@@ -16,7 +16,7 @@ RULE = (
     "count that is not a multiple of 64), plus the swapped merge (commutativity). log16: every counter against the empty sketch (both "
     "ways) and against itself per configuration (max_count in {70000,1e6,2^32-1,2^53,2^63} x num_reserved in {0,1,1023,30000}), >= 10^6 "
     "PRNG-sampled pairs per configuration biased to the reserved boundary, the maximum and sums crossing max_count; thorough: all 2^32 "
-    "pairs of the default configuration in 256 slabs. All kinds: Hypothesis-generated small odd shapes ((1,1),(1,2),(3,5),(7,9),(1,63),"
+    "pairs of the default configuration in 256 slabs. All kinds: tables of width 65535, 65536, 65537, 70001, 131075 with boundary-biased PRNG values; Hypothesis-generated small odd shapes ((1,1),(1,2),(3,5),(7,9),(1,63),"
     "(1,65),(5,13),(9,7),(2,64)) with boundary-biased values. Oracle (vectorised, own decode from the public base): other operand bit-for-bit "
     "unchanged; n_added/n_records are the sums; linear cell == min(a+b,2^32-1); log cell m with v=value(a)+value(b): v<=nr -> m==v; "
     "v>=max_count -> m==umax; else |value(m)-v| <= min_c|value(c)-v| + 1e-9*spacing; m >= max(a,b); merge(empty) is the identity. "
@@ -293,8 +293,35 @@ def run_small(case):
     return nt
 
 
+def _wide_task(arg):
+    """widths at and beyond 2^16 (a separate code path for wide tables would live here)"""
+    kind, depth, width, seed = arg
+    rec = common.Recorder()
+    rng = np.random.default_rng(seed)
+    n = depth * width
+    if kind == "linear":
+        pick = rng.integers(0, 6, n)
+        a = np.where(pick == 0, CEIL - rng.integers(0, 4, n), np.where(pick == 1, rng.integers(0, 5, n), rng.integers(0, CEIL + 1, n))).astype(np.uint32)
+        pick = rng.integers(0, 6, n)
+        b = np.where(pick == 0, CEIL - rng.integers(0, 4, n), np.where(pick == 1, rng.integers(0, 5, n), rng.integers(0, CEIL + 1, n))).astype(np.uint32)
+        mc = nr = None
+    else:
+        mc, nr = (1000, 3) if kind == "log8" else (10**6, 15)
+        a = sample_counters(rng, n, nr, UMAX[kind]).astype(DT[kind])
+        b = sample_counters(rng, n, nr, UMAX[kind]).astype(DT[kind])
+    case = {"kind": kind, "wide": [depth, width], "seed": int(seed)}
+    cnt, nt, msg, sig = verify_merge(kind, depth, width, mc, nr, a, b, rng.integers(0, 2**40, 2), rng.integers(0, 2**40, 2), f"{kind} wide shape {depth}x{width}")
+    if msg:
+        rec.violation(case, msg, sig)
+        return rec
+    rec.bulk(cnt, nt, case, {"wide_table_cells": cnt})
+    return rec
+
+
 def run(tier, seed, rec):
     quick = tier == "quick"
+    wide = [(k, d, w, common.derive_seed(seed, "C09-wide", k, w)) for k in ("linear", "log8", "log16") for d, w in ((1, 65535), (1, 65536), (2, 65537), (1, 131075), (3, 70001))]
+    common.pool_merge(_wide_task, wide, rec)
     jobs8 = [(nr, mcs, common.derive_seed(seed, "C09-8", nr)) for nr, mcs in LOG8_GRID.items()]
     common.pool_merge(_log8_task, jobs8, rec)
     n_sample = 10**6 if quick else 4 * 10**6
@@ -319,7 +346,9 @@ def replay(case):
     if "a" in case:
         run_small(case)
         return
-    if "slab" in case:
+    if "wide" in case:
+        r = _wide_task((case["kind"], case["wide"][0], case["wide"][1], case["seed"]))
+    elif "slab" in case:
         r = _log16_slab(tuple(case["slab"]))
     elif case["kind"] == "log8":
         r = _log8_task((case["num_reserved"], LOG8_GRID[case["num_reserved"]], case.get("seed", 1)))
